@@ -173,7 +173,13 @@ func (g *gen) genPure(i int) {
 		for k := 0; k < n; k++ {
 			g.stmt(1)
 		}
-		g.line("return %s", g.expr(p.res, g.cfg.MaxExprDepth))
+		if e := g.expr(p.res, g.cfg.MaxExprDepth); p.res.Kind == kStruct || p.res.Kind == kArr || p.res.Kind == kInner {
+			tmp := g.fresh("ret") // see returnLine
+			g.line("%s := %s", tmp, e)
+			g.line("return %s", tmp)
+		} else {
+			g.line("return %s", e)
+		}
 	})
 	g.close_("}")
 	g.pures = append(g.pures, p)
